@@ -179,6 +179,26 @@ func doFromString(s string) {
 			}
 		}
 	}
+	// the pointer pair: UTF16PtrFromString agrees with UTF16FromString (error or not) and
+	// UTF16PtrToString reads back exactly the string on valid text
+	func() {
+		defer func() {
+			if recover() != nil {
+				out.Fail("UTF16PtrFromString / UTF16PtrToString panicked", "ptr-panic", desc)
+			}
+		}()
+		p, err := winapi.UTF16PtrFromString(s)
+		out.Count("ptr-from", s, len(rs) > 0)
+		switch {
+		case (err != nil) != (r.err != nil):
+			out.Fail("UTF16PtrFromString and UTF16FromString disagree about the error", "ptr-from-err", desc)
+		case err == nil && !nul && utf8.ValidString(s):
+			if back := winapi.UTF16PtrToString(p); back != s {
+				desc["back"] = []rune(back)
+				out.Fail("UTF16PtrToString(UTF16PtrFromString(s)) != s", "ptr-roundtrip", desc)
+			}
+		}
+	}()
 }
 
 func doDec(s []uint16) {
@@ -211,6 +231,22 @@ func doDec(s []uint16) {
 			break
 		}
 	}
+	// the pointer entry point: the same units, terminated at the first NUL, read through *uint16 -
+	// must be the standard decoding up to that NUL (the scan is over 16-bit units, not bytes)
+	func() {
+		t := append(append(make([]uint16, 0, k+1), s[:k]...), 0)
+		defer func() {
+			if recover() != nil {
+				out.Fail("UTF16PtrToString panicked", "ptr-dec-panic", desc)
+			}
+		}()
+		gp := winapi.UTF16PtrToString(&t[0])
+		out.Count("ptr-dec", fmt.Sprint(t), k > 0)
+		if gp != string(utf16.Decode(s[:k])) {
+			out.Fail("UTF16PtrToString is not the standard decoding up to the first NUL", "ptr-dec-std",
+				map[string]interface{}{"fn": "UTF16PtrToString", "units": u16s64(t), "got": []rune(gp)})
+		}
+	}()
 	if want := utf16.Decode(s[:k]); !eqR(got, want) {
 		desc["got"], desc["want"] = runes64(got), runes64(want)
 		out.Fail("UTF16Decode differs from the standard decoding up to the first NUL", "dec-std", desc)
